@@ -86,12 +86,13 @@ type reqRec struct {
 	Case    waitCase // what Apply sees for this response
 	Now     time.Time
 	Applied time.Duration
-	MidSkip bool // cMid500 was not applicable (wait < 2 ns): behaves as a plain 500
 }
 
 type runC struct {
-	Reqs      []reqRec
-	M         int
+	Reqs    []reqRec
+	M       int
+	Skipped bool // the script has "cancel in the middle of the wait" where there is no such instant (wait < 2 ns, or no
+	// wait follows): for the code under test the script is the one with a plain 500 there, which the sibling subtree decides
 	Over      bool
 	OverAfter string
 	Err       error
@@ -140,11 +141,11 @@ func execC(t *testing.T, p polC, ctx0 string, prefix []csym) (r runC) {
 			i := r.M
 			r.M++
 			r.Times = append(r.Times, time.Since(start))
-			if r.Over {
+			if r.Over || r.Skipped {
 				return mkResp(req, 200, nil), nil
 			}
 			switch {
-			case len(r.Reqs) > 0 && r.Reqs[len(r.Reqs)-1].Sym.terminal(p) && !r.Reqs[len(r.Reqs)-1].MidSkip:
+			case len(r.Reqs) > 0 && r.Reqs[len(r.Reqs)-1].Sym.terminal(p):
 				r.Over, r.OverAfter = true, csymClass[r.Reqs[len(r.Reqs)-1].Sym]
 			case ctx0 != "live" && i >= 1:
 				r.Over, r.OverAfter = true, "context-done-on-entry"
@@ -206,7 +207,8 @@ func execC(t *testing.T, p polC, ctx0 string, prefix []csym) (r runC) {
 				if rec.Applied >= 2 && i < p.RetryMax {
 					after(rec.Applied / 2)
 				} else {
-					rec.MidSkip = true
+					r.Skipped = true
+					return mkResp(req, 200, nil), nil
 				}
 			}
 			r.Reqs = append(r.Reqs, rec)
@@ -292,6 +294,7 @@ func evalC(p polC, ctx0 string, r runC) (out []finding, gaps int64, waitOutcomes
 type partCResult struct {
 	Cases         int64
 	Executions    int64
+	Equivalent    int64 // scripts-prefixes that are, by construction of the harness, the sibling with a plain 500
 	Nontrivial    int64
 	GapsChecked   int64
 	Outcomes      map[string]int64
@@ -333,6 +336,11 @@ func exploreC(t *testing.T, p polC, ctx0 string, alpha []csym, res *partCResult,
 	rec = func(prefix []csym) {
 		r := execC(t, p, ctx0, prefix)
 		res.Executions++
+		if r.Skipped {
+			res.Equivalent++
+			res.ScriptsCover += pow(len(alpha), bound-len(prefix))
+			return
+		}
 		res.Cases++
 		fs, gaps, wo := evalC(p, ctx0, r)
 		res.GapsChecked += gaps
@@ -346,7 +354,7 @@ func exploreC(t *testing.T, p polC, ctx0 string, alpha []csym, res *partCResult,
 		for _, f := range fs {
 			v := res.Viol[f.Sig]
 			if v == nil {
-				v = &violRec{Sig: f.Sig, Replay: map[string]any{"part": "C", "case": caseC{p, ctx0, csymStrings(prefix)}, "detail": f.Detail, "requests": r.M, "request_times": fmt.Sprint(r.Times), "returned": fmt.Sprint(r.Err)}}
+				v = &violRec{Sig: f.Sig, Key: fmt.Sprintf("%02d|%v|%d|%v", len(prefix), !p.Enabled, p.RetryMax, caseC{p, ctx0, csymStrings(prefix)}), Replay: map[string]any{"part": "C", "case": caseC{p, ctx0, csymStrings(prefix)}, "detail": f.Detail, "requests": r.M, "request_times": fmt.Sprint(r.Times), "returned": fmt.Sprint(r.Err)}}
 				res.Viol[f.Sig] = v
 			}
 			v.Count++
@@ -455,6 +463,7 @@ func runPartC(t *testing.T, thorough bool) partCResult {
 				mu.Lock()
 				res.Cases += loc.Cases
 				res.Executions += loc.Executions
+				res.Equivalent += loc.Equivalent
 				res.Nontrivial += loc.Nontrivial
 				res.GapsChecked += loc.GapsChecked
 				res.DisabledRetry += loc.DisabledRetry
@@ -474,10 +483,7 @@ func runPartC(t *testing.T, thorough bool) partCResult {
 					if r := res.Viol[k]; r == nil {
 						res.Viol[k] = v
 					} else {
-						r.Count += v.Count
-						if fmt.Sprint(v.Replay) < fmt.Sprint(r.Replay) {
-							r.Replay = v.Replay
-						}
+						r.absorb(v)
 					}
 				}
 				mu.Unlock()
